@@ -43,7 +43,13 @@ from comb_spec_searcher.typing import (
 from ..combinatorial_class import CombinatorialClassType, CombinatorialObjectType
 from ..exception import SanityCheckFailure, SpecificationNotFound, StrategyDoesNotApply
 from ..utils import TermsCache, equal_counters
-from .constructor import Complement, Constructor, DisjointUnion
+from .constructor import (
+    CartesianProduct,
+    Complement,
+    Constructor,
+    DisjointUnion,
+    Quotient,
+)
 
 if TYPE_CHECKING:
     from .strategy import AbstractStrategy, Strategy, VerificationStrategy
@@ -772,6 +778,16 @@ class EquivalenceRule(Rule[CombinatorialClassType, CombinatorialObjectType]):
                         ],
                     ),
                 )
+            elif (
+                isinstance(original_constructor, CartesianProduct)
+                and len(self.actual_children) == 1
+            ):
+                # a product with a single factor counts like a union with a single child
+                self._constructor = DisjointUnion(
+                    self.comb_class,
+                    self.children,
+                    (original_constructor.extra_parameters[0],),
+                )
             else:
                 raise NotImplementedError
         return self._constructor
@@ -856,9 +872,14 @@ class EquivalencePathRule(Rule[CombinatorialClassType, CombinatorialObjectType])
             }
             for rule in self.rules:
                 original_constructor = rule.constructor
-                assert isinstance(original_constructor, (DisjointUnion, Complement))
+                # a product with a single factor counts like a union with a single
+                # child (and its reverse like the complement)
+                assert isinstance(
+                    original_constructor,
+                    (DisjointUnion, Complement, CartesianProduct, Quotient),
+                )
                 rules_parameters = original_constructor.extra_parameters[0]
-                if isinstance(original_constructor, Complement):
+                if isinstance(original_constructor, (Complement, Quotient)):
                     if len(set(rules_parameters.values())) != len(
                         rules_parameters.values()
                     ):
